@@ -520,7 +520,8 @@ def _adapter(c, cex, tmp):
 
 class _AdapterTable(dict):
     def get(self, key, default=None):
-        return _adapter
+        # class-based witness search for the from_cbor / to_obj contracts; the helpers replay the solver's model directly
+        return _adapter if key.endswith(".from_cbor") or key.endswith(".to_obj") else default
 
 
 NATIVE = _AdapterTable()
